@@ -122,20 +122,58 @@ def _single_assignments():
     return _ENUM
 
 
+_FULL = None
+
+
+def _full_wirings():
+    """per combination: every device the pack knows wired at once (each to the first output that offers a label for it), and the
+    same wiring with the outputs visited in reverse - pairings / orderings between devices only show with several of them wired"""
+    global _FULL
+    if _FULL is None:
+        out = []
+        for ci, (plat, cv, lv) in enumerate(constructible()):
+            pair = packs.pair(plat, cv, lv)
+            outs = outputs_of(pair)
+            for order in (list(range(len(outs))), list(range(len(outs)))[::-1]):
+                choices = [None] * len(outs)
+                done = set()
+                for j in order:
+                    labels = pair.items[outs[j]].labels or []
+                    for li, lab in enumerate(labels):
+                        dev = WIRING.get(lab)
+                        if dev is not None and dev not in done:
+                            done.add(dev)
+                            choices[j] = li
+                            break
+                if len(done) >= 2:
+                    out.append((ci, choices))
+        _FULL = out
+    return _FULL
+
+
 def enumerated(tier):
     cases = _single_assignments()
     stride = 1 if tier == "thorough" else 23
+    n_single = (len(cases) + stride - 1) // stride
+    kinds = 2 if tier == "thorough" else 1      # thorough: both facades for every single assignment; quick: alternating
+    full = _full_wirings()
 
     def fn(i):
-        ci, j, li = cases[(i * stride) % len(cases)]
-        return {"combo": ci, "seed": ci, "choices": [None] * j + [li], "default": "na", "kind": "async" if (i % 2 == 0) else "sync"}
+        if i < n_single * kinds:
+            ci, j, li = cases[((i // kinds) * stride) % len(cases)]
+            kind = ("async", "sync")[i % 2]
+            return {"combo": ci, "seed": ci, "choices": [None] * j + [li], "default": "na", "kind": kind}
+        i -= n_single * kinds
+        ci, choices = full[i // 2]
+        return {"combo": ci, "seed": ci + 1, "choices": list(choices), "default": "na", "kind": ("async", "sync")[i % 2]}
 
-    return (len(cases) + stride - 1) // stride, fn
+    return n_single * kinds + 2 * len(full), fn
 
 
 def coverage_extra(tier):
     return {"single_output_assignments_total": len(_single_assignments()), "exhaustive": tier == "thorough",
-            "exhaustive_dimension": "every (combination, output, label) single-output assignment (thorough)"}
+            "exhaustive_dimension": "every (combination, output, label) single-output assignment x both facades (thorough); every combination with all its devices wired at once, outputs visited forwards and backwards, both facades (both tiers)",
+            "all_devices_wirings": len(_full_wirings())}
 
 
 def reference_inventory(pair, block):
